@@ -9,7 +9,10 @@
 (*   [e |-> "nret",   i, x = timeout | lua | ok]  the nested invocation made *)
 (*                                           at wrapper i came back to the   *)
 (*                                           module: in-band timeout / error *)
-(*                                           element, or the value           *)
+(*                                           element, or the value; i =     *)
+(*                                           Len(wrap) + 1: a benign nested  *)
+(*                                           invocation of body invloop came *)
+(*                                           back as the timeout element     *)
 (*   [e |-> "done",   i = 0, x = result]     expand() returned (if it did)  *)
 (* A trace is accepted when it is the projection on these visible steps of  *)
 (* some behaviour of the machine (all other machine steps are internal);    *)
@@ -43,16 +46,22 @@ NestedBack ==
   /\ status = "running" /\ stack # <<>> /\ Top.k \in NestedKinds
   /\ phase = "ret" \/ (phase = "unwind" /\ NestedAbsorbs)
 
+\* the time limit strikes in a benign nested invocation of body invloop and is handed to the loop in-band
+BodyBack == InNestedCall /\ "NestedTimeoutInBand" \in Dev /\ now > limit
+
 Visible(e) ==
   CASE e.e = "enter" -> ~AtLoopLevel /\ Depth + 1 = e.i /\ Depth < Len(W) /\ W[Depth + 1] = e.x /\ Enter
     [] e.e = "caught" -> CatchCase /\ Depth = e.i /\ err = e.x /\ Unwind
-    [] e.e = "nret" -> /\ NestedBack /\ Depth = e.i
-                       /\ IF phase = "ret" THEN e.x = "ok" /\ Ret ELSE e.x = err /\ Unwind
+    [] e.e = "nret" -> IF e.i = Len(W) + 1
+                       THEN BodyBack /\ e.x = "timeout" /\ HookFires    \* body invloop reports only this
+                       ELSE /\ NestedBack /\ Depth = e.i
+                            /\ IF phase = "ret" THEN e.x = "ok" /\ Ret ELSE e.x = err /\ Unwind
     [] e.e = "done" -> (Unwind \/ Ret) /\ stack = <<>> /\ status' = e.x
     [] OTHER -> FALSE
 
 Internal ==
-  \/ Invoke \/ Step \/ HookFires \/ Tick
+  \/ Invoke \/ Step \/ Tick
+  \/ HookFires /\ ~BodyBack
   \/ AtLoopLevel /\ Enter          \* next iteration of a loop (reported only once)
   \/ Unwind /\ stack # <<>> /\ ~CatchCase /\ ~NestedBack
   \/ Ret /\ stack # <<>> /\ ~NestedBack
